@@ -1222,4 +1222,13 @@ theorem resume_releases (fl : Flags) (s : St) (j : Nat)
     · rw [finish_held]; simp [St.put]
     · intro t; rw [finish_avail]; rfl
     · intro i hi; rw [finish_held]; simp [St.put, upd, hi]
+
+/-! ### a concrete run used by the `example`s of `Properties/C08.lean` -/
+/-- all three repairs present. -/
+def flOK : Flags := { readyGuarded := true, resubmitRegisters := true, abortRechecks := true }
+/-- token 0 of capacity 2; job 0 asks 1 (exit code 0), job 1 asks 2 (exit code 1). -/
+def demoEvs : List Ev :=
+  [.submit 1 [.tok 0 1] 0 false, .submit 2 [.tok 0 2] 1 false, .step, .step, .deliver 0, .step, .deliver 0, .step]
+def drain (k : Nat) : List Ev := (List.replicate k [Ev.deliver 0, .step, .step, .step]).flatten
+def demoRun (k : Nat) : St := (demoEvs ++ drain k).foldl (St.apply flOK) (St.init [2])
 end XpmVerif.Sched
